@@ -26,6 +26,13 @@ M = [
     ("C14", "round-to-floor", "black_it/calibrator.py", "np.round(np.min(losses_samp[:n_sampled_params]), convergence_precision) == 0", "np.floor(np.min(losses_samp[:n_sampled_params]) * 10**convergence_precision) == 0"),
     ("C14", "min-of-last", "black_it/calibrator.py", "np.round(np.min(losses_samp[:n_sampled_params]), convergence_precision) == 0", "np.round(np.min(losses_samp[-1:]), convergence_precision) == 0"),
     ("C14", "off-by-one-count", "black_it/calibrator.py", "                        self.n_sampled_params,\n                        self.convergence_precision,", "                        self.n_sampled_params - 1,\n                        self.convergence_precision,"),
+    ("C09", "rr-preinc", "black_it/schedulers/round_robin.py", "return self.samplers[self._batch_id % len(self.samplers)]", "return self.samplers[(self._batch_id + 1) % len(self.samplers)]"),
+    ("C09", "rr-no-wrap-6", "black_it/schedulers/round_robin.py", "return self.samplers[self._batch_id % len(self.samplers)]", "return self.samplers[self._batch_id % len(self.samplers) if self._batch_id < 64 else 0]"),
+    ("C09", "rr-use-batch-index", "black_it/schedulers/round_robin.py", "        self._batch_id += 1", "        self._batch_id = batch_id"),
+    ("C09", "labels-by-first", "black_it/calibrator.py", "[self.samplers_id_table[type(method).__name__]]\n                        * method.batch_size,", "[self.samplers_id_table[type(self.scheduler.samplers[0]).__name__]]\n                        * method.batch_size,"),
+    ("C09", "rl-halton-last", "black_it/schedulers/rl/rl_scheduler.py", "            return samplers, sampler_types[HaltonSampler]", "            return samplers, len(samplers) - 1"),
+    ("C09", "rl-action-shift", "black_it/schedulers/rl/rl_scheduler.py", "        return self.samplers[chosen_sampler_id]", "        return self.samplers[chosen_sampler_id - 1]"),
+    ("C09", "ctor-and", "black_it/calibrator.py", "if both_none or both_not_none:", "if both_none and both_not_none:"),
     ("C15", "no-tolerance", "black_it/search_space.py", "parameters_bounds[1][i] + 0.0000001,", "parameters_bounds[1][i],"),
 ]
 
